@@ -78,3 +78,7 @@ func WitnessList(name string, parts ...string) {}
 func VfsOnly(prefix string) {}
 func FlipOrder(m any) {}
 func Thorough() bool { return false }
+
+func CorpusCount() int          { return 0 }
+func CorpusSource(i int) string { return "" }
+func CorpusName(i int) string   { return "" }
